@@ -3,6 +3,7 @@
 use libfuzzer_sys::fuzz_target;
 
 fuzz_target!(|data: &[u8]| {
+    gbcheck::engine::fuzz_init();
     if let Err(f) = gbcheck::checks::c19::fuzz_file(data) {
         gbcheck::engine::fuzz_violation("C19", &f.sig, serde_json::json!({"kind": "fuzz-bytes", "bytes": gbcheck::engine::hex(data)}), &f.detail);
     }
